@@ -81,11 +81,17 @@ class BertE(JobDispatcher):
             job.status = type(err).__name__
             job.details = None
 
+            try:
+                details = str(err)
+            except Exception:
+                # never let a badly behaved exception kill the worker
+                details = repr(type(err))
+
             if not isinstance(err, (BertE_Exception, InternalException)):
                 LOG.exception("Job '%s' finished with an error.", job)
-                job.details = str(err)
+                job.details = details
             elif isinstance(err, JobFailure):
-                job.details = str(err)
+                job.details = details
                 LOG.info("API job '%s' finished with an error: %s",
                          job, job.details)
         finally:
